@@ -12,6 +12,7 @@ import (
 //     (and searchable ones under another token);
 //  2. an integral float (came back as an int), a feature without tags (was dropped by the import), a literal
 //     polygon with 1e-7 degree vertices (was rounded to 1e-6 by "%f");
+//  2b. collections with int/float, string/int, repeated, unordered and Sort()ed keys (FindValue/FindValues probes);
 //  3. a tag value, collection literal or relation role "null" / "~" — before fixes/C18-export-null-string.patch
 //     the exported file was undecodable (yaml.v2);
 //  4. FINDING import-intermediate-state: (a) a ring dragged east vertex by vertex — the import applies the final
@@ -115,6 +116,24 @@ func corpus(c *hx.Ctx) {
 	k.StandardBase(r, false)
 	k.AddFeature(Feat{ID: 2009, Body: "a:p515304998_-1295975~515304998_-1285963~515315003_-1295975"})
 	k.AddFeature(pathFeat(1007, idAtoms(1, 2, 3)))
+	k.Finish()
+
+	// 2b: collection keys and the sorted flag the import computes (FindValue / FindValues binary-search a
+	// sorted collection): int then float keys passed the one-way test before
+	// fixes/C18-collection-sorted-mixed-keys.patch and FindValue(1.0) missed after the round trip; string and
+	// int keys are not comparable at all; repeated, unordered, Sort()ed keys
+	c.Comment("collection keys")
+	k = newCase(c)
+	k.StandardBase(r, false)
+	k.AddFeature(Feat{ID: 4030, Body: "c:i:-1>" + sv("x") + "," + floatAtom(1) + ">" + sv("y") + "," + floatAtom(2.5) + ">" + sv("z")})
+	k.AddFeature(Feat{ID: 4031, Body: "c:i:1>" + sv("x") + "," + sv("a") + ">" + sv("y") + ",i:2>" + sv("z")})
+	k.AddFeature(Feat{ID: 4011, Body: "cs:i:1>" + sv("p") + ",i:1>" + sv("q") + ",i:2>" + sv("r") + ",i:5>" + sv("s")})
+	k.Finish()
+	k = newCase(c)
+	k.StandardBase(r, false)
+	k.AddFeature(Feat{ID: 4030, Body: "c:i:3>" + sv("x") + ",i:1>" + sv("y") + ",i:3>" + sv("z")})
+	k.AddFeature(Feat{ID: 4031, Body: "c:" + floatAtom(0.5) + ">i:1,i:1>i:2," + floatAtom(1.5) + ">i:3"})
+	k.AddFeature(Feat{ID: 4011, Body: "c:" + sv("a") + ">i:1," + sv("b") + ">i:2," + idAtom(1) + ">i:3," + idAtom(2) + ">i:4"})
 	k.Finish()
 
 	// 5
